@@ -216,15 +216,15 @@ PROPS = {
     ),
     "C05": dict(
         design_ref="DESIGN.md 4 (C05)",
-        level_text="Coq theorems: token-type ids are stable per name, injective and >= 1000 > every built-in type, for every registration history; a registration for a token that already has the role (built-in or registered) is refused leaving the builder unchanged; the role sets are exactly the built-in handlers plus what was registered (seeds regenerated from NewBuilder and checked against the handler tables of newWithOptions); a fresh registration changes only its role; an infix operator registered at the level of a built-in binary operator b parses EXACTLY like b (simulation: parse with the operator = parse of the renamed tokens, up to renaming, errors included), for the 12 built-in binary operators without a prefix role and every configuration that does not touch b; a registered prefix operator parses exactly like '!'; a registered postfix operator is a CALL-level suffix. EVERY LEVEL (ClimbSpec.v, ClimbProofs.v): for every configuration a builder can produce (no operator on the end-of-input token), both modes, any interceptors, and every operator tree over identifiers and integer literals that mixes the 13 built-in binary operators with infix operators registered at ANY levels above LOWEST and is grouped like left-associative operators of those levels (left operand of level >= k, right operand of level > k), the parser returns exactly that tree and reports no error; the well-grouped tree of a token list is unique; the same (ClimbSpec2.v) for trees that also contain prefix operators (built-in ! and -, registered: level 9), registered postfix operators (call-level suffix, level 11) and parenthesised subtrees. Built-in ++/--, call, member, index and assignment expressions next to levels 2, 9..13 are explored by the oracle.",
+        level_text="Coq theorems: token-type ids are stable per name, injective and >= 1000 > every built-in type, for every registration history; a registration for a token that already has the role (built-in or registered) is refused leaving the builder unchanged; the role sets are exactly the built-in handlers plus what was registered (seeds regenerated from NewBuilder and checked against the handler tables of newWithOptions); a fresh registration changes only its role; an infix operator registered at the level of a built-in binary operator b parses EXACTLY like b (simulation: parse with the operator = parse of the renamed tokens, up to renaming, errors included), for the 12 built-in binary operators without a prefix role and every configuration that does not touch b; a registered prefix operator parses exactly like '!'; a registered postfix operator is a CALL-level suffix. EVERY LEVEL (ClimbSpec.v, ClimbProofs.v): for every configuration a builder can produce (no operator on the end-of-input token), both modes, any interceptors, and every operator tree over identifiers and integer literals that mixes the 13 built-in binary operators with infix operators registered at ANY levels above LOWEST and is grouped like left-associative operators of those levels (left operand of level >= k, right operand of level > k), the parser returns exactly that tree and reports no error; the well-grouped tree of a token list is unique; the same (ClimbSpec2.v) for trees that also contain prefix operators (built-in ! and -, registered: level 9), registered postfix operators (call-level suffix, level 11) and parenthesised subtrees; and (ClimbSpec3.v, C05_groups_by_level_y) for trees that also contain the built-in neighbours that are not binary operators: member access (12), index access (12), calls with any number of arguments (11), built-in ++ / -- (10, not after a line break), assignment and compound assignment (2, right-associative), in both modes (smart mode: no line break before an opening ( or [).",
         level_note="Trusted: Coq kernel, translator xjs2v (tables, builder seeds), extraction, harness/driver correspondence (reg suite: registered operators on dynamic tokens incl. refused duplicates). Operator callbacks are the node-constructor shapes the property names. Recorded finding KF18 (level 1 never binds).",
         technique="Coq proof (simulation between two parser runs by induction on fuel; completeness of the Pratt loop for operator trees of arbitrary levels by induction on the tree; registry invariants over histories) + model/implementation correspondence",
         suites=[dict(suite="reg", n_quick=3000, n_thorough=100000, what="expressions over registered operators: tree, errors, registration error flags",
                      projection=POS_FREE),
                 dict(suite="parse", n_quick=1500, n_thorough=50000, what="sources x 4 modes", projection=POS_FREE)],
         oracle_n_quick=1500, oracle_n_thorough=50000,
-        explanation="C05: C05_token_ids, C05_duplicate_refused, C05_role_sets, C05_register_effect, C05_infix_like_builtin, C05_prefix_like_builtin, C05_postfix_call_level, C05_groups_by_level, C05_grouping_unique, C05_cfg_ok_reachable, C05_groups_by_level_reachable, C05_groups_by_level_x, C05_grouping_unique_x, C05_cfg_ok_x_reachable.",
-        open_statements=["operators registered at levels 2, 9..13 next to built-in ++/--, call, member, index and assignment expressions: oracle only", "level 1 never binds (KF18)"],
+        explanation="C05: C05_token_ids, C05_duplicate_refused, C05_role_sets, C05_register_effect, C05_infix_like_builtin, C05_prefix_like_builtin, C05_postfix_call_level, C05_groups_by_level, C05_grouping_unique, C05_cfg_ok_reachable, C05_groups_by_level_reachable, C05_groups_by_level_x, C05_grouping_unique_x, C05_cfg_ok_x_reachable, C05_groups_by_level_y, C05_cfg_ok_y_reachable.",
+        open_statements=["operands other than identifiers / integer literals / the listed constructs (strings, floats, array / object / function literals) next to an operator registered at a level without a built-in binary operator: oracle only", "level 1 never binds (KF18)"],
     ),
     "C12": dict(
         design_ref="DESIGN.md 4 (C12)",
